@@ -316,3 +316,52 @@ M['C19'] = [
 M['C19'].append(dict(id='c19-current-count-helper', kind='fault', rule='S2', edits=[
     ('src/hash.c', 'void cstl_hash_resize(struct cstl_hash * const h,', 'static size_t table_count(const struct cstl_hash * const h)\n{\n    return h->bucket.count;\n}\n\nvoid cstl_hash_resize(struct cstl_hash * const h,'),
     ('src/hash.c', '            && (count != cur_count\n', '            && (count != table_count(h)\n')]))
+
+# ------------------------------------------------------------------------------------------- C03
+M['C03'] = [
+    dict(id='c03-insert-uses-current-geometry-directly', kind='fault', rule='L1', edits=[
+        ('src/hash.c', '    struct cstl_hash_bucket * const bk = cstl_hash_get_bucket(h, k);\n    struct cstl_hash_node * const hn = __cstl_hash_node(h, e);',
+         '    struct cstl_hash_bucket * const bk = __cstl_hash_get_bucket(h, k, h->bucket.hash, h->bucket.count);\n    struct cstl_hash_node * const hn = __cstl_hash_node(h, e);')]),
+    dict(id='c03-lookup-returns-old-bucket', kind='fault', rule='L2', edits=[
+        ('src/hash.c', '        __cstl_hash_rehash(h, 1);\n\n        bk = _bk;\n', '        __cstl_hash_rehash(h, 1);\n')]),
+    dict(id='c03-lookup-cleans-only-new-bucket', kind='fault', rule='L2', edits=[
+        ('src/hash.c', '        cstl_clean_bucket(h, bk);\n        cstl_clean_bucket(h, _bk);', '        cstl_clean_bucket(h, _bk);')]),
+    dict(id='c03-lookup-cleans-only-old-bucket', kind='fault', rule='L2', edits=[
+        ('src/hash.c', '        cstl_clean_bucket(h, bk);\n        cstl_clean_bucket(h, _bk);', '        cstl_clean_bucket(h, bk);')]),
+    dict(id='c03-lookup-returns-new-bucket-when-not-pending', kind='fault', rule=['L2', 'L1'], edits=[
+        ('src/hash.c', '    if (h->bucket.rh.hash != NULL) {\n        struct cstl_hash_bucket * const _bk =\n            __cstl_hash_get_bucket(\n                h, k, h->bucket.rh.hash, h->bucket.rh.count);',
+         '    if (h->bucket.rh.hash != NULL && h->bucket.rh.count > h->bucket.count) {\n        struct cstl_hash_bucket * const _bk =\n            __cstl_hash_get_bucket(\n                h, k, h->bucket.rh.hash, h->bucket.rh.count);')]),
+    dict(id='c03-cleaner-relocates-with-current-geometry', kind='fault', rule='L3', edits=[
+        ('src/hash.c', '                __cstl_hash_get_bucket(\n                    h, n->key, h->bucket.rh.hash, h->bucket.rh.count);', '                __cstl_hash_get_bucket(\n                    h, n->key, h->bucket.hash, h->bucket.count);')]),
+    dict(id='c03-cleaner-mixed-geometry', kind='fault', rule='L3', edits=[
+        ('src/hash.c', '                __cstl_hash_get_bucket(\n                    h, n->key, h->bucket.rh.hash, h->bucket.rh.count);', '                __cstl_hash_get_bucket(\n                    h, n->key, h->bucket.rh.hash, h->bucket.count);')]),
+    dict(id='c03-cleaner-no-detach', kind='fault', rule='L3', edits=[
+        ('src/hash.c', '        n = bk->n;\n        bk->n = NULL;\n', '        n = bk->n;\n')]),
+    dict(id='c03-cleaner-never-marks-clean', kind='fault', rule='L3', edits=[
+        ('src/hash.c', '        /* the bucket is clean, now */\n        bk->cst = h->bucket.cst;\n', '')]),
+    dict(id='c03-erase-without-count-decrement', kind='fault', rule='L4', edits=[
+        ('src/hash.c', '        *hep.n = (*hep.n)->next;\n        h->count--;', '        *hep.n = (*hep.n)->next;')]),
+    dict(id='c03-erase-decrements-when-not-found', kind='fault', rule='L4', edits=[
+        ('src/hash.c', '        *hep.n = (*hep.n)->next;\n        h->count--;\n    }', '        *hep.n = (*hep.n)->next;\n    }\n    h->count--;')]),
+    dict(id='c03-insert-without-count', kind='fault', rule='L4', edits=[
+        ('src/hash.c', '    HASH_LIST_INSERT(bk->n, hn);\n\n    h->count++;', '    HASH_LIST_INSERT(bk->n, hn);')]),
+    dict(id='c03-insert-loses-chain', kind='fault', rule='L4', edits=[
+        ('src/hash.c', '    HASH_LIST_INSERT(bk->n, hn);\n\n    h->count++;', '    bk->n = hn;\n\n    h->count++;')]),
+    dict(id='c03-resize-flip-without-forced-rehash', kind='fault', rule='L5', edits=[
+        ('src/hash.c', '            cstl_hash_rehash(h);\n\n            h->bucket.cst = !h->bucket.cst;', '            h->bucket.cst = !h->bucket.cst;')]),
+    dict(id='c03-resize-new-buckets-dirty', kind='fault', rule='L5', edits=[
+        ('src/hash.c', '                h->bucket.at[i].cst = h->bucket.cst;', '                h->bucket.at[i].cst = !h->bucket.cst;')]),
+    dict(id='c03-resize-new-buckets-not-emptied', kind='fault', rule='L5', edits=[
+        ('src/hash.c', '                h->bucket.at[i].n = NULL;\n', '')]),
+    dict(id='c03-find-visits-before-key-compare', kind='fault', rule='L6', edits=[
+        ('src/hash.c', '    if (__cstl_hash_node(hfp->h, e)->key == hfp->k) {\n', '    if (hfp->visit != NULL || __cstl_hash_node(hfp->h, e)->key == hfp->k) {\n')]),
+    dict(id='c03-revert-capacity-byte-check', kind='fault', rule='L7', edits=[
+        ('src/hash.c', '    if (sz <= SIZE_MAX / sizeof(struct cstl_hash_bucket)) {', '    if (sz <= SIZE_MAX) {')]),
+    dict(id='c03-benign-lookup-restructured', kind='benign', edits=[
+        ('src/hash.c', '    struct cstl_hash_bucket * bk;\n\n    bk = __cstl_hash_get_bucket(h, k, h->bucket.hash, h->bucket.count);\n',
+         '    struct cstl_hash_bucket * bk =\n        __cstl_hash_get_bucket(h, k, h->bucket.hash, h->bucket.count);\n\n    if (h->bucket.rh.hash == NULL) {\n        return bk;\n    }\n')]),
+    dict(id='c03-benign-clean-order-swapped', kind='benign', edits=[
+        ('src/hash.c', '        cstl_clean_bucket(h, bk);\n        cstl_clean_bucket(h, _bk);', '        cstl_clean_bucket(h, _bk);\n        cstl_clean_bucket(h, bk);')]),
+    dict(id='c03-benign-count-prefix-increment', kind='benign', edits=[
+        ('src/hash.c', '    HASH_LIST_INSERT(bk->n, hn);\n\n    h->count++;', '    h->count += 1;\n    hn->next = bk->n;\n    bk->n = hn;')]),
+]
